@@ -141,8 +141,12 @@ def run(ctx):
                 "lower-case, zero-padded, garbage-in-unused-bits, wrong word count, empty, too-large, non-hex, signed/prefixed texts; "
                 "Less on all pairs of a 96-key grid and of random lists, sort.Sort results; the pre-sort gathering orders (Go map iteration) and "
                 "the sorted key sequences of independently constructed catchment instances; Compress/Encoding/Decode/Decompress between instances for %s action sets of ValidModel.csv (13 actions) "
-                "and TestingModel.csv (15 actions). distinct_nontrivial = distinct (size, word array) states observed + distinct "
-                "(size, decode text) + distinct (dataset, action set) transferred" % (exh, "all 2^13 / all 2^15" if ctx.tier == "thorough" else "400 / 400 sampled"),
+                "and TestingModel.csv (15 actions), and -- on GENERATED catchments with %s management actions (loaded through the real loader; "
+                "3 further instances each) -- for the action sets that fill / straddle the 64-bit words of the encoding (all, none, alternating, each "
+                "single action at 0/62/63/64/65/126..129/190..192/n-2/n-1 and its complement, one word's worth, random), each encoding also compared with an "
+                "independently written canonical text. distinct_nontrivial = distinct (size, word array) states observed + distinct "
+                "(size, decode text) + distinct (dataset, action set) transferred" % (exh, "all 2^13 / all 2^15" if ctx.tier == "thorough" else "400 / 400 sampled",
+                                                                               "1, 2, 62..66, 127..129, 191..193, 256" if ctx.tier == "thorough" else "63, 64, 65, 128"),
         "exhaustive": True,
         "exhaustive_part": "bit patterns of sizes 1..%d; all key pairs of the 96-key grid%s" % (exh, "; all 8192 action sets of ValidModel.csv and all 32768 of TestingModel.csv" if ctx.tier == "thorough" else ""),
         "correspondence_shards": nshards,
